@@ -81,6 +81,38 @@ func (p *Prog) Sentinel(g *ssa.Global) bool {
 	return false
 }
 
+// SurvivingEdges: for a merged result x (`r, e := phi(nil | v), phi(err | nil)` of a spliced-in helper) used where the
+// sibling error phi e is known nil (behind `if e != nil { return }`), the indexes of the edges on which e can be nil —
+// the only ways x's value can have come. ok is false when no such sibling fact exists.
+func (p *Prog) SurvivingEdges(x *ssa.Phi, at, pred *ssa.BasicBlock) (edges []int, ok bool) {
+	if at == nil {
+		return nil, false
+	}
+	for _, in := range x.Block().Instrs {
+		e, isPhi := in.(*ssa.Phi)
+		if !isPhi {
+			break
+		}
+		if e == x || !IsErrorType(e.Type()) || len(e.Edges) != len(x.Edges) {
+			continue
+		}
+		if p.domFact(e, at, pred) != IsNil {
+			continue
+		}
+		for i := range x.Edges {
+			if i >= len(x.Block().Preds) {
+				break
+			}
+			if p.edgeState(e.Edges[i], x.Block().Preds[i], x.Block(), 1) == NonNil {
+				continue
+			}
+			edges = append(edges, i)
+		}
+		return edges, true
+	}
+	return nil, false
+}
+
 // ValState evaluates the nil-ness of v on arrival in block at coming from pred (pred may be nil).
 func (p *Prog) ValState(v ssa.Value, at, pred *ssa.BasicBlock) NilState {
 	return p.valState(v, at, pred, 0)
